@@ -20,13 +20,14 @@ EXPLAIN = "c12_explain"
 CASES_PER_FILE = 120
 CASE_FILE_BYTES = 120000
 CASE_TIMEOUT = 10
-TIERS = {"quick": {"n": 2400}, "thorough": {"n": 30000, "exhaustive": True}}
+TIERS = {"quick": {"n": 2000}, "thorough": {"n": 20000, "exhaustive": True}}
 RULE = ("BufferedSocket over a scripted socket: random byte streams over a 2-4 letter alphabet (delimiters recur and "
         "overlap), random and exhaustive compositions into deliveries (1-byte delivery included) with time-outs "
         "interleaved, recvsize 1-6 or large, maxsize around the delimiter position, call sequences of recv_until "
         "(1-3 byte delimiters taken from the stream)/recv_size/peek/recv_close/recv/setmaxsize, repeated after Timeout; "
         "send/sendall/buffer/flush under partial sends and time-outs; NetstringSocket write_ns -> chunked wire -> "
-        "read_ns with arbitrary payload bytes.  non-trivial = a delimiter or a size boundary straddles a delivery "
+        "read_ns with arbitrary payload bytes; thorough adds every network (all compositions x time-out placements) of every "
+        "stream over {a,b} up to length 5.  non-trivial = a delimiter or a size boundary straddles a delivery "
         "edge, or a call needed >= 2 deliveries, or a Timeout left partial data buffered, or a send needed >= 2 "
         "partial sends / timed out with bytes unsent, or a netstring was read across >= 2 deliveries; distinct = "
         "distinct canonical case hash")
@@ -563,11 +564,12 @@ def gen_ns(rng, tier):
 
 
 def gen_sweep(rng):
-    """Thorough tier: EVERY network for EVERY stream over {a,b} of length <= 4 (all compositions into
-    deliveries x a time-out or not before each delivery and at the end), x delimiters of length 1-3 x maxsize
-    1..len+1 x with/without delimiter, under a fixed call sequence ending in recv_close."""
+    """Thorough tier: EVERY network for EVERY stream over {a,b} of length <= 5 (all compositions into
+    deliveries x a time-out or not before each delivery and at the end; 12 442 networks), each with a random
+    delimiter of length 1-3, maxsize 0..len+1 or default, with/without delimiter, under the call sequence
+    recv_until, peek, recv_size, recv_until, recv_close (repeated after Timeout)."""
     delims = [[97], [98], [97, 98], [98, 97], [97, 97], [97, 97, 98], [97, 98, 97]]
-    for n in range(0, 5):
+    for n in range(0, 6):
         for bits in itertools.product([97, 98], repeat=n):
             stream = list(bits)
             nets = []
